@@ -40,6 +40,7 @@ def run(ctx: Ctx, rep: Report) -> None:
     rep.rule("C04-R4", "a constant subscript on a result list is preceded by an established length", floor=2)
     rep.rule("C04-R5", "a missing object (noSuchObject / noSuchInstance value) raises NoSuchOID for the requested OID", floor=3)
     rep.rule("C04-R6", "operations taking a caller-ordered OID list keep one result position per requested OID", floor=1)
+    rep.rule("C04-R10", "a response with a non-zero error-status never reaches the caller as data: it raises, whatever error-index and bindings it carries (shared with C08-R1/R3/R4)", floor=2)
     rep.rule("C04-R9", "the pythonic operations hand OIDs, values and options to the raw operations one-to-one (shared with C15-R4)", floor=5)
     rep.rule("C04-R8", "get-next hands out every lexicographic successor: the progress guard passes requested < retrieved, position by position (shared with C03-R2/R3)", floor=2)
     rep.rule("C04-R7", "get-bulk: size bound, OID list, counters and response split agree (shared with C02-R2/R3)", floor=6)
@@ -270,6 +271,8 @@ def run(ctx: Ctx, rep: Report) -> None:
     rep.adopt_rules(ctx.sub_run("c15", rep), "C04-R9", ["C15-R4"])
     rep.adopt_rules(ctx.sub_run("c12", rep), "C04-R9", ["C12-R4"], containing="only in Report")
     # over SNMPv1 a missing object is signalled by error-status noSuchName: construct() has to map it to NoSuchOID
+    # an error response is never handed out as the agent's values (the status field decides, not the index)
+    rep.adopt_rules(ctx.sub_run("c08", rep), "C04-R10", ["C08-R1", "C08-R3", "C08-R4"])
     rep.adopt_rules(ctx.sub_run("c08", rep), "C04-R5", ["C08-R2"], containing="noSuchName")
     rep.adopt_rules(ctx.sub_run("c08", rep), "C04-R5", ["C08-R2"], containing="builds NoSuchOID")
     rep.adopt_rules(ctx.sub_run("c08", rep), "C04-R5", ["C08-R2"], containing="direct* subclass")
